@@ -2,7 +2,7 @@
 import os
 import sys
 import numpy as np
-from common import F, rs, vs, ms, dyadic, close, call
+from common import F, rs, vs, ms, dyadic, close, call, as_given
 from systems import gen_A, gen_K, gen_baseline, apply_K
 
 
@@ -21,25 +21,34 @@ def run(R):
     quick = R.tier == "quick"
     NMAX = 5 if quick else 9
     R.rule = ("exhaustive grid: every sample count n in 1..%d x every batch size in 1..n+2, 'full', None, for the gaussian, "
-              "poisson, excitation and variance-minimisation procedures on an underdetermined 3x4 system with K, baseline and "
-              "weights; rows pairwise distinct, in- and out-of-gamut mixed; the hook-recorded (batch idx, padded, rows written) "
+              "poisson, excitation and variance-minimisation procedures on an underdetermined 3x4 system with K, baseline, "
+              "weights and per-source bounds that differ between sources (so that mis-stacked bounds show); rows pairwise "
+              "distinct, in- and out-of-gamut mixed; targets (and 2-D weights) handed in as C-ordered / Fortran-ordered "
+              "(e.g. a transposed table) / strided arrays, lists, or integer arrays when whole (n = 2, 5, 8 use whole-number "
+              "targets) - the model sees values only, arguments must be unchanged afterwards; the hook-recorded (batch idx, padded, rows written) "
               "sequence is compared literally with the Lean batchPlan; results of every batch size are compared with batch "
-              "size 1; plus row permutation / duplication / drop / append. Non-trivial: n mod bs != 0 or bs > n (padded path) "
+              "size 1; per-sample weights (W='inverse', c/B, random 2-D) with batch sizes 1, 2, 3 (padded): the joint fit must equal "
+              "fitting every row alone with its own weight row - also when the rows of one call span several decades (a dark "
+              "out-of-gamut row next to bright rows; compared relative to the row's own size; gaussian and poisson); plus row "
+              "permutation / duplication / drop / append. Non-trivial: n mod bs != 0 or bs > n (padded path) "
               "with distinct rows." % NMAX)
     rng0 = R.rng(0)
     nf, ns = 3, 4
     A = gen_A(rng0, nf, ns)
     kk, K = gen_K(rng0, nf, kinds=("vector",))
     bk, base = gen_baseline(rng0, nf, kinds=("vector",))
-    lb = np.zeros(ns); ub = np.ones(ns) * 2.0
+    # per-source bounds that differ between sources: a batch stacks them once per sample of the batch
+    lb = np.array([0.0, 0.25, 0.0, 0.125]); ub = np.array([2.0, 1.5, 1.75, 1.25])
     w = np.array([1.0, 2.0, 0.5])
     Ap, bp = apply_K(A, K, base)
 
     def targets(n, rng):
-        Xt = dyadic(rng, 0.25, 1.75, 3, size=(n, ns))
+        Xt = lb + dyadic(rng, 0.125, 0.875, 3, size=(n, ns)) * (ub - lb)
         B = Xt @ Ap.T + bp
         out = rng.random(n) < 0.4
         B[out] = B[out] * np.array([3.0, 0.5, 2.0])    # pushed out of the gamut, hue changed
+        if n % 3 == 2:
+            B = np.round(B)       # whole-number targets (may then be handed in with an integer dtype)
         return B, out
     models = ["gaussian", "poisson", "excitation", "minvar"]
 
@@ -60,6 +69,7 @@ def run(R):
             grid.append((n, bs))
     ref = {}
     reqs = []
+    raised = []
     for gi, (n, bs) in enumerate(grid):
         for model in models:
             R.driver.ask("p%d_%s" % (gi, model), "batchplan", model, n, batch_text(bs))
@@ -79,15 +89,17 @@ def run(R):
             R.count("model:" + model)
             padded = any(p[1] for p in plan)
             R.count("padded:%s" % padded)
+            # same values, another representation (implementation side only)
+            Bg = as_given(R.rng(21, gi, models.index(model)), B, R, "B")
             drain()
-            st, out = call(fit, model, B, bs)
+            st, out = call(fit, model, Bg, bs)
             ev = [e for e in drain() if e["event"] == "batch"]
             nontriv = (model, n, batch_text(bs)) if (padded and n >= 1) else None
             R.case(c, nontriv, sample=(nontriv is not None and model == "gaussian" and n == 4))
             sig = "C05:%s" % model
             if st != "ok":
                 cls = "bs>n" if (isinstance(bs, int) and bs > n) else ("bs>1" if (bsz > 1) else "bs=1")
-                R.failB(dict(c, impl_error=out), "fit with n=%d, batch_size=%s failed: %s" % (n, batch_text(bs), out), sig + ":raises:%s:%s" % (st, cls))
+                raised.append((c, model, n, bs, bsz, st, out, B, cls))
                 continue
             # A: the scatter bookkeeping recorded by the hook equals the model's plan
             site = "lsq_linear_minimize" if model == "minvar" else "_solve_problem"
@@ -99,6 +111,31 @@ def run(R):
             if bsz == 1 and key not in ref:
                 ref[key] = (np.array(X), np.array(Bp))
             reqs.append((c, model, n, bs, bsz, np.array(X), np.array(Bp), B, outmask))
+    # a fit that raises. The property says "never fails because of the combination" (of sample count and batch size): it is a
+    # violation when the same targets are fitted without error at batch size one, or when the error is anything but the solver's
+    # honest "did not converge". When the (harness-chosen) solver does not converge on these targets at batch size one either, the
+    # reference result the property compares with does not exist: the group (model, n) is excluded and counted; a model that
+    # loses more than half of its groups this way is reported as a correspondence failure.
+    noref = {}
+    for c, model, n, bs, bsz, st, out, B, cls in raised:
+        sig = "C05:%s" % model
+        key = (model, n)
+        if key not in ref and key not in noref:
+            st1, o1 = call(fit, model, B, 1)
+            if st1 == "ok":
+                ref[key] = (np.array(o1[0]), np.array(o1[1]))
+            else:
+                noref[key] = (st1, o1)
+        nonconv = st == "runtime" and "did not converge" in str(out)
+        if key in noref and nonconv and noref[key][0] == "runtime" and "did not converge" in str(noref[key][1]):
+            R.count("excluded:solver-did-not-converge-at-batch-size-1-either:%s" % model)
+            continue
+        R.failB(dict(c, impl_error=out), "fit with n=%d, batch_size=%s failed: %s" % (n, batch_text(bs), out), sig + ":raises:%s:%s" % (st, cls))
+    for model in models:
+        groups = {n for (n, bs) in grid if not (model in ("excitation", "minvar") and quick and n > 4)}
+        lost = sorted(n for (m, n) in noref if m == model)
+        if R.only_case is None and len(lost) * 2 > len(groups):
+            R.failA(dict(k="%s:no-reference" % model, model=model, sample_counts=lost), "the %s fit did not converge at batch size one for %d of %d sample counts: no reference to compare with" % (model, len(lost), len(groups)))
     for c, model, n, bs, bsz, X, Bp, B, outmask in reqs:
         if (model, n) not in ref:
             st1, o1 = call(fit, model, B, 1)
@@ -132,10 +169,16 @@ def run(R):
                         sig + ":differs-from-bs1:" + cls)
 
     # per-sample weights: a joint fit must equal the row-by-row fits (each row alone with its own weight row),
-    # also when the products target*weight coincide on neighbouring rows (W = c / B, W = 'inverse')
-    for wi, wkind in enumerate(["inverse", "c_over_B", "random2d"]):
-        for bs in (1, 2):
-            k = "weights:%s:bs=%d" % (wkind, bs)
+    # also when the products target*weight coincide on neighbouring rows (W = c / B, W = 'inverse'), and when the rows of one
+    # call span several decades ("row i depends only on row i of the targets and of its weights": a dark row next to bright rows)
+    wcases = [(wkind, "gaussian", bs) for wkind in ["inverse", "c_over_B", "random2d", "inverse_decades", "c_over_B_decades"] for bs in (1, 2, 3)]
+    wcases += [("inverse_decades", "poisson", bs) for bs in (1, 2)]
+    wkinds = ["inverse", "c_over_B", "random2d", "inverse_decades", "c_over_B_decades"]
+    single_cache = {}
+    for wkind, model, bs in wcases:
+        wi = wkinds.index(wkind)
+        if True:
+            k = "weights:%s:bs=%d" % (wkind, bs) if model == "gaussian" else "weights:%s:%s:bs=%d" % (wkind, model, bs)
             if not R.want(k):
                 continue
             rng = R.rng(13, wi)
@@ -143,27 +186,50 @@ def run(R):
             Xt = dyadic(rng, 0.25, 1.75, 3, size=(n, ns))
             Bw = Xt @ A.T
             Bw[1] = Bw[1] * np.array([2.5, 0.5, 1.5]); Bw[2] = Bw[2] * np.array([0.5, 3.0, 1.0])   # out of gamut
-            if wkind == "inverse":
+            lbw = lb
+            if wkind.endswith("_decades"):
+                # rows of very different brightness in one call (a high-dynamic-range image; exact powers of two). Lower bounds 0, so
+                # that a dark target is dark-reachable and only its hue is out of gamut: all weighted (relative) residuals are O(1)
+                lbw = np.zeros(ns)
+                Bw[3] = Bw[3] * np.array([1.5, 2.0, 0.5])     # rows 1, 2, 3 out of gamut, row 0 reachable
+                Bw = Bw * np.array([1.0, 2.0 ** -12, 2.0 ** -7, 4.0])[rng.permutation(n)][:, None]
+            if wkind.startswith("inverse"):
                 Wm = "inverse"; Wrows = 1.0 / Bw
-            elif wkind == "c_over_B":
+            elif wkind.startswith("c_over_B"):
                 Wrows = np.array([2.0, 2.0, 2.0, 0.5])[:, None] / Bw; Wm = Wrows
             else:
                 Wrows = dyadic(rng, 0.25, 2, 2, size=(n, nf)); Wm = Wrows
-            c = dict(k=k, weights=wkind, batch_size=bs, A=A, B=Bw, W=Wrows)
-            R.count("weights:" + wkind)
+            c = dict(k=k, weights=wkind, model=model, batch_size=bs, A=A, B=Bw, W=Wrows, lb=lbw, ub=ub)
+            R.count("weights:" + wkind); R.count("weights-model:" + model)
+            rngg = R.rng(23, wi, bs, 0 if model == "gaussian" else 1)
+            Bwg = as_given(rngg, Bw, R, "Bw")
+            Wmg = Wm if isinstance(Wm, str) else as_given(rngg, Wm, R, "W2d")
 
-            def joint():
-                return lsq_linear(A, Bw, lb=lb, ub=ub, W=Wm, batch_size=bs, return_pred=True, solver="CLARABEL")[1]
+            def joint(*watched):
+                return lsq_linear(A, Bwg, lb=lbw, ub=ub, W=Wmg, batch_size=bs, model=model, return_pred=True, solver="CLARABEL")[1]
 
             def single():
-                return np.vstack([lsq_linear(A, Bw[i:i + 1], lb=lb, ub=ub, W=Wrows[i:i + 1], batch_size=1, return_pred=True, solver="CLARABEL")[1] for i in range(n)])
-            st, oj = call(joint); st2, os_ = call(single)
-            R.case(c, ("weights", wkind, bs), sample=(bs == 2 and wkind == "c_over_B"))
+                return np.vstack([lsq_linear(A, Bw[i:i + 1], lb=lbw, ub=ub, W=Wrows[i:i + 1], batch_size=1, model=model, return_pred=True, solver="CLARABEL")[1] for i in range(n)])
+            st, oj = call(joint, *[a for a in (Bwg, Wmg) if isinstance(a, np.ndarray)])
+            if (wkind, model) not in single_cache:      # the row-by-row reference does not depend on the batch size of the joint call
+                single_cache[(wkind, model)] = call(single)
+            st2, os_ = single_cache[(wkind, model)]
+            R.case(c, ("weights", wkind, model, bs), sample=(bs == 2 and wkind == "c_over_B"))
             if st != "ok" or st2 != "ok":
-                R.failB(dict(c, impl_error=[oj, os_]), "fit with per-sample weights failed: %s %s" % (oj, os_), "C05:gaussian:weights:raises:%s" % (st if st != "ok" else st2)); continue
-            if np.abs(oj - os_).max() > 2e-4:
-                R.failB(dict(c, joint=oj, row_by_row=os_), "with per-sample weights (%s) the joint fit differs from fitting each row alone (max diff %.3g, rows %s)"
-                        % (wkind, float(np.abs(oj - os_).max()), np.flatnonzero(np.abs(oj - os_).max(axis=1) > 2e-4).tolist()), "C05:gaussian:weights-row-dependence:%s" % wkind)
+                R.failB(dict(c, impl_error=[oj, os_]), "fit with per-sample weights failed: %s %s" % (oj, os_), "C05:%s:weights:raises:%s" % (model, st if st != "ok" else st2)); continue
+            # solver accuracy as in the grid: 2e-4 (gaussian) / 1e-2 (poisson) capture units, set for targets of size ~10. The rows of
+            # the *_decades kinds have sizes from 1e-3 to 1e2 and relative weights (W ~ 1/B: the objective is the relative error), so
+            # the same accuracy is asked relative to each row's own size: 2e-5 / 5e-3 of the row's largest target
+            if wkind.endswith("_decades"):
+                tolw = (5e-3 if model == "poisson" else 2e-5) * np.abs(Bw).max(axis=1)
+            else:
+                tolw = np.full(n, 1e-2 if model == "poisson" else 2e-4)
+            dev = np.abs(oj - os_).max(axis=1)
+            if os.environ.get("VERIF_DEBUG"):
+                print("DEBUG", k, "rel dev per row", (dev / np.abs(Bw).max(axis=1)).tolist(), "abs", dev.tolist(), file=sys.stderr)
+            if np.any(dev > tolw):
+                R.failB(dict(c, joint=oj, row_by_row=os_), "with per-sample weights (%s) the joint fit differs from fitting each row alone (max diff %.3g, rows %s, row sizes %s)"
+                        % (wkind, float(dev.max()), np.flatnonzero(dev > tolw).tolist(), np.abs(Bw).max(axis=1).tolist()), "C05:%s:weights-row-dependence:%s" % (model, wkind))
 
     # metamorphic: permute / duplicate / drop / append rows
     for model in ["gaussian", "poisson"] + ([] if quick else ["minvar"]):
@@ -184,6 +250,7 @@ def run(R):
                 R.failB(dict(c, impl_error=base_out), "fit failed: %s" % base_out, "C05:%s:raises:%s:%s" % (model, st, "bs>1" if bs > 1 else "bs=1")); continue
             for name, idx in variants.items():
                 B2 = B[idx] if name != "append" else np.vstack([B, targets(2, R.rng(11, bs))[0]])
+                B2 = as_given(R.rng(25, bs, ["gaussian", "poisson", "minvar"].index(model), sorted(variants).index(name)), B2, R, "Bmeta")
                 st2, o2 = call(fit, model, B2, bs)
                 if st2 != "ok":
                     R.failB(dict(c, variant=name, impl_error=o2), "fit of %s rows failed: %s" % (name, o2), "C05:%s:raises:%s:%s" % (model, st2, "bs>1" if bs > 1 else "bs=1")); continue
